@@ -57,9 +57,11 @@ def program(draw):
         ver += 1
         ops.append(["write", f, ver])
     ops.append(["commit"])
+    if draw(st.booleans()):
+        ops.append(["tag", draw(st.sampled_from(["sub", "other"]))])      # a ref named like a directory of the work tree
     n = draw(st.integers(3, 14))
     for _ in range(n):
-        k = draw(st.sampled_from(["write", "write", "write", "write", "rm", "mv", "chmod", "add_all", "add", "commit", "commit"]))
+        k = draw(st.sampled_from(["write", "write", "write", "write", "rm", "mv", "chmod", "add_all", "add", "commit", "commit", "tag"]))
         if k == "write":
             ver += 1
             ops.append(["write", draw(st.sampled_from(FILES)), ver])
@@ -73,6 +75,9 @@ def program(draw):
             ops.append(["add", draw(st.sampled_from(FILES))])
         elif k == "chmod":
             ops.append(["chmod", draw(st.sampled_from(FILES))])
+        elif k == "tag":
+            # a tag (or branch) named like a directory: on the command line an existing path wins over a ref of that name
+            ops.append(["tag", draw(st.sampled_from(["sub", "other", "v1"]))])
         else:
             ops.append([k])
     queries = []
@@ -81,10 +86,12 @@ def program(draw):
         q = {"base": draw(st.integers(0, 3)) if kind[0] == "c" else "index",
              "remote": draw(st.integers(0, 3)) if kind[1] == "c" else ("index" if kind[1] == "i" else "worktree"),
              "cwd": draw(st.sampled_from(DIRS)),
-             "paths": draw(st.sampled_from([None, None, ["."], ["sub"], ["deep"], ["a.ipynb"], ["c.ipynb"], ["sub/c.ipynb", "b.ipynb"]]))}
+             "paths": draw(st.sampled_from([None, None, ["."], ["sub"], ["sub"], ["other"], ["deep"], ["a.ipynb"], ["c.ipynb"], ["sub/c.ipynb", "b.ipynb"]]))}
         # the same comparison through the command line (`nbdiff <ref> [<ref>] [<path>...]`): brings the ref-vs-path
         # disambiguation of the arguments under the same oracle (the index cannot be named on the command line)
         q["cli"] = kind in ("cc", "cw") and draw(st.sampled_from([True, False, False]))
+        # `nbdiff <path>` = HEAD against the working tree below <path>
+        q["cli_omit_head"] = bool(q["cli"] and kind == "cw" and q["base"] == 0 and q["paths"] and len(q["paths"]) == 1 and draw(st.booleans()))
         queries.append(q)
     return {"ops": ops, "queries": queries}
 
@@ -148,6 +155,8 @@ class Repo:
             full = os.path.join(self.root, op[1])
             if os.path.exists(full):
                 os.chmod(full, os.stat(full).st_mode ^ 0o111)     # mode-only change: git reports the file as modified
+        elif k == "tag":
+            self.git("tag", "-f", op[1], check=False)
         elif k == "add_all":
             self.git("add", "-A")
         elif k == "add":
@@ -213,7 +222,7 @@ def cli_pairs(q):
     import io
     import sys
     from nbdime import nbdiffapp
-    argv = [q["base_ref"]]
+    argv = [] if q.get("cli_omit_head") else [q["base_ref"]]
     if q["remote_ref"] != "worktree":
         argv.append(q["remote_ref"])
     argv += list(q["paths"] or [])
@@ -274,7 +283,16 @@ def run_case(case):
                 rb = GitRefIndex if q["base_ref"] == "index" else q["base_ref"]
                 rr = GitRefIndex if q["remote_ref"] == "index" else (GitRefWorkingTree if q["remote_ref"] == "worktree" else q["remote_ref"])
                 if q.get("cli"):
+                    # an argument that is not an existing path but names a tag IS a revision for the command line: such a
+                    # query does not express "filter by path", so it goes through the library route instead
+                    tags = set(repo.git("tag", "-l").split())
+                    if any(p in tags and not os.path.exists(os.path.join(cwd, p)) for p in (q["paths"] or [])):
+                        q["cli"] = False
+                        out.count("cli_queries_rerouted_(argument_is_a_ref_here)")
+                if q.get("cli"):
                     out.count("queries_through_command_line")
+                    if any(p in tags for p in (q["paths"] or [])):
+                        out.count("cli_queries_with_path_named_like_a_ref")
                     pairs_iter = cli_pairs(q)
                 else:
                     pairs_iter = changed_notebooks(rb, rr, q["paths"])
